@@ -47,6 +47,7 @@ import (
 	"strconv"
 	"strings"
 	"testing"
+	"time"
 
 	http "github.com/bfenetworks/bfe/bfe_http"
 	"github.com/bfenetworks/bfe/verifkit/vk"
@@ -891,6 +892,8 @@ func TestVerifC55(t *testing.T) {
 	r.Set("P.valLens", valLens)
 
 	nontrivialPair := func(n, v int) bool { return n >= 128 || v >= 128 }
+	t0 := time.Now()
+	mark := func(f string) { t.Logf("family %s done at %.1fs", f, time.Since(t0).Seconds()) }
 
 	// ---- P1: one parameter, full cross product; with and without a body
 	for _, nl := range nameLens {
@@ -914,13 +917,14 @@ func TestVerifC55(t *testing.T) {
 		}
 	}
 
+	mark("P1")
 	// ---- P2: two parameters, full cross product of the pair alphabet
 	type pl struct{ n, v int }
 	var pairs2 []pl
 	n2, v2 := nameLens, valLens
 	if !r.Thorough() {
-		n2 = []int{0, 1, 127, 128, maxWrite - 8, maxWrite - 7, 70000}
-		v2 = []int{0, 1, 127, 128, maxWrite - 8 - 128, maxWrite - 8 - 128 + 1, maxWrite - 8, maxWrite - 7, 65536, 70000}
+		n2 = []int{0, 1, 128, maxWrite - 8, maxWrite - 7, 70000}
+		v2 = []int{0, 127, 128, maxWrite - 8 - 128, maxWrite - 8 - 128 + 1, maxWrite - 8, maxWrite - 7, 70000}
 	}
 	r.Set("P2.nameLens", n2)
 	r.Set("P2.valLens", v2)
@@ -954,9 +958,10 @@ func TestVerifC55(t *testing.T) {
 		}
 	}
 
+	mark("P2")
 	// ---- P3: three parameters over a reduced alphabet aimed at record splitting
 	n3 := []int{1, 128}
-	v3 := []int{0, 127, 128, 30000, maxWrite - 8 - 128, maxWrite - 8, maxWrite - 7, 70000}
+	v3 := []int{0, 128, 30000, maxWrite - 8 - 128, maxWrite - 8, 70000}
 	if r.Thorough() {
 		n3 = []int{0, 1, 128, maxWrite - 8}
 		v3 = []int{0, 1, 127, 128, 30000, 35500, maxWrite - 8 - 128, maxWrite - 9, maxWrite - 8, maxWrite - 7, 70000}
@@ -1000,6 +1005,7 @@ func TestVerifC55(t *testing.T) {
 		}
 	}
 
+	mark("P3")
 	// ---- PM: many equal-sized small parameters
 	counts := []int{0, 1, 8, 9, 64, 489, 490, 654, 655, 656, 1311}
 	shapes := []pl{{10, 88}, {10, 89}, {120, 7}, {128, 0}, {5, 127}, {5, 128}}
@@ -1036,6 +1042,7 @@ func TestVerifC55(t *testing.T) {
 		}
 	}
 
+	mark("PM")
 	// ---- B: bodies x reader kinds x parameter maps
 	bodySizes := []int{0, 1, 7, 8, maxWrite - 1, maxWrite, maxWrite + 1, 65535, 65536, 2*maxWrite - 1, 2 * maxWrite, 2*maxWrite + 1, 131072}
 	if r.Thorough() {
@@ -1087,6 +1094,7 @@ func TestVerifC55(t *testing.T) {
 		}
 	}
 
+	mark("B")
 	// ---- T: parameter map built by the real buildMetaValsAndMethod + RoundTrip glue
 	hn := []int{1, 10, 122, 123, maxWrite - 8 - 5 - 1, maxWrite - 8 - 5, maxWrite - 8 - 5 + 1, 70000}
 	hv := []int{0, 1, 127, 128, 60000, maxWrite - 8 - 15, maxWrite - 8 - 15 + 1, 70000}
@@ -1135,6 +1143,7 @@ func TestVerifC55(t *testing.T) {
 		}
 	}
 
+	mark("T")
 	// ---- R: responder record sequences
 	c55checkDoReader()
 	r.Set("R.reader_built_directly", c55doReaderChecked)
@@ -1215,4 +1224,5 @@ func TestVerifC55(t *testing.T) {
 		}
 	}
 	walk(0)
+	mark("R")
 }
